@@ -214,6 +214,36 @@ struct H {
             }
             ctx.exhaustive      = true;
             ctx.exhaustive_what = "all finite float bit patterns, 9 significant digits";
+        } else if (what == "short-decimals") {
+            // Doubles whose 17-digit text collapses to a few digits: m x 10^k for every k from -330 to 310 and m below 10,000 (below 100,000
+            // in the subnormal range and around the top of the range), positive and negative. Short texts take the parser's short paths.
+            uint64_t idx = 0;
+            for (int k = -330; k <= 310; ++k) {
+                const unsigned top = (k <= -300 || k >= 300) ? 100000u : 10000u;
+                for (unsigned m = 1; m < top; ++m) {
+                    if ((idx++ % nshards) != shard) {
+                        continue;
+                    }
+                    char b[48];
+                    snprintf(b, sizeof b, "%ue%d", m, k);
+                    const double d = strtod(b, nullptr);
+                    if (!(d > 0) || std::isinf(d)) {
+                        continue;
+                    }
+                    Case c;
+                    c.kind = 0;
+                    memcpy(&c.bits, &d, 8);
+                    if ((m & 1) != 0) {
+                        c.bits |= 0x8000000000000000ULL;
+                    }
+                    c.cls = "short-decimal";
+                    if (pbt::exec_case_fast<H>(ctx, c) == pbt::Status::Fail) {
+                        return;
+                    }
+                }
+            }
+            ctx.exhaustive      = true;
+            ctx.exhaustive_what = "m x 10^k for k = -330..310, m < 10,000 (m < 100,000 for k <= -300 and k >= 300), 17 significant digits";
         } else if (what.compare(0, 12, "least-slack-") == 0) {
             // Where 17 digits have the least room: a binade whose top lies just above a power of ten (2^k = 1.00x * 10^m). The doubles
             // in [10^m, 2^k) are spaced almost as widely as 17-digit decimals with leading digit 1, so the correctly rounded text of
